@@ -103,9 +103,11 @@ def svg_draws(font, srcs):
 KF_BUCKET = "normalize-grid-boundary"
 
 
-def normalised_keys(srcs, cfg, tol):
-    """Per source glyph, per path: picosvg's normalised outline (the reuse key) of the path in font space, computed
-    the way the cache does (normalize at tolerance/10).  picosvg is a dependency, not code under test."""
+def normalised_keys(srcs, cfg, tol, svg_space=False):
+    """Per source glyph, per path: picosvg's normalised outline (the reuse key) of the path in the space the cache sees
+    it - font space for COLR / glyf builds, the source's own viewBox coordinates for OT-SVG builds (svg._glyph_groups
+    gives the cache `shape.as_path().d` untransformed) - computed the way the cache does (normalize at tolerance/10).
+    picosvg is a dependency, not code under test."""
     from picosvg.svg import SVG
     from picosvg.svg_reuse import normalize
     from picosvg.svg_transform import Affine2D
@@ -116,10 +118,12 @@ def normalised_keys(srcs, cfg, tol):
     for s in srcs:
         svg = SVG.fromstring(s.svg_text)
         vb = svg.view_box()
-        A = Affine2D(*oracle_svg.viewbox_to_font(tuple(vb), oc))
+        A = Affine2D.identity() if svg_space else Affine2D(*oracle_svg.viewbox_to_font(tuple(vb), oc))
         row = []
         for sh in svg.shapes():
-            fp = SVGPath(d=sh.as_path().d).apply_transform(A)
+            fp = SVGPath(d=sh.as_path().d)
+            if not svg_space:
+                fp = fp.apply_transform(A)
             row.append((normalize(fp, tol / 10).d, fp.d))
         out.append(row)
     return out
@@ -172,7 +176,7 @@ def check_one(chk, glyphs, pattern, fmt, tol, ctx, replay):
                 chk.violation(f"{ctx} [{fmt}]: reuse disabled yet class {c} ({copies[c]} copies) is stored {len(outs)} times", replay)
         elif representable and len(outs) != 1:
             # is it picosvg's grid-snapping normalisation that separates the copies?  (known finding, see DESIGN §7)
-            keys = normalised_keys(srcs, cfg, tol)
+            keys = normalised_keys(srcs, cfg, tol, svg_space=(fmt == "picosvg"))
             mine = [keys[gi][li] for gi, g in enumerate(pattern) for li, cc in enumerate(g) if cc == c]
             class_keys = {k for k, _ in mine}
             fk = None
